@@ -18,7 +18,7 @@ func init() {
 	Register("C10", &Info{
 		Run:   runC10,
 		Quick: 10000, Thor: 400000,
-		Rule: "a world = one fingerprint (every predefined parrot by stratum, randomized seeds, generated consistent specs, fingerprinted copies) x one server choice drawn from what the ON-WIRE hello offers and utls documents as implemented: max version, a single key-exchange group (forcing HelloRetryRequest when no share was sent), a single TLS<=1.2 cipher suite, an ALPN protocol, the certificate key type (ECDSA/RSA/Ed25519); peer = repository server or Go standard-library server; then 1 B-40 kB echoed both ways; a handshake failure is attributed from both sides' errors; non-trivial = a plan knob was applicable; distinct = (fingerprint, knob, value, peer)",
+		Rule: "a world = one fingerprint (every predefined parrot by stratum, randomized seeds, generated consistent specs, fingerprinted copies) x one server choice drawn from what the ON-WIRE hello offers and utls documents as implemented: max version, a single key-exchange group (forcing HelloRetryRequest when no share was sent), a single TLS<=1.2 cipher suite, an ALPN protocol, the certificate key type (ECDSA/RSA/Ed25519); the client Config is in 15% of the worlds one that an earlier connection of another parrot already used; peer = repository server or Go standard-library server; then 1 B-40 kB echoed both ways; a handshake failure is attributed from both sides' errors; non-trivial = a plan knob was applicable; distinct = (fingerprint, knob, value, peer)",
 		Assumptions: []string{"'standards-compliant server' = Go standard library crypto/tls (go1.26.8) and the repository's own server; no OpenSSL peer (it would need real sockets outside the simulator)",
 			"TLS 1.3 cipher-suite choice cannot be forced on either Go server; it follows client order and AES hardware",
 			"the Kyber-draft group (0x6399) has no compliant peer in the simulator and is never selected"},
@@ -52,6 +52,9 @@ func runC10(c *Ctx) {
 		return
 	}
 	c.R.Class = fmt.Sprintf("%s/%s %s", r.F.Kind, r.F.IDI.Name, r.Plan)
+	if r.SharedAfter != "" {
+		c.R.Class += " config-shared-after-" + r.SharedAfter
+	}
 	c.R.NonTrivial = len(r.Plan.Knobs) > 0
 	if c.R.Violation != nil {
 		return
